@@ -18,8 +18,57 @@ use bitstream_io::huffman::{compile_read_tree, HuffmanTreeError};
 use bitstream_io::{BitRead, BitReader, HuffmanRead, LittleEndian};
 use webpsan::parse::{BitBufReader, CanonicalHuffmanTree, ParseError};
 
+// counting allocator: bytes currently allocated (for `tabmem`: the heap a compiled read tree retains)
+struct CountingAlloc;
+static CUR: std::sync::atomic::AtomicUsize = std::sync::atomic::AtomicUsize::new(0);
+unsafe impl std::alloc::GlobalAlloc for CountingAlloc {
+    unsafe fn alloc(&self, l: std::alloc::Layout) -> *mut u8 {
+        let p = std::alloc::System.alloc(l);
+        if !p.is_null() {
+            CUR.fetch_add(l.size(), std::sync::atomic::Ordering::Relaxed);
+        }
+        p
+    }
+    unsafe fn dealloc(&self, p: *mut u8, l: std::alloc::Layout) {
+        std::alloc::System.dealloc(p, l);
+        CUR.fetch_sub(l.size(), std::sync::atomic::Ordering::Relaxed);
+    }
+    unsafe fn realloc(&self, p: *mut u8, l: std::alloc::Layout, new: usize) -> *mut u8 {
+        let q = std::alloc::System.realloc(p, l, new);
+        if !q.is_null() {
+            if new >= l.size() {
+                CUR.fetch_add(new - l.size(), std::sync::atomic::Ordering::Relaxed);
+            } else {
+                CUR.fetch_sub(l.size() - new, std::sync::atomic::Ordering::Relaxed);
+            }
+        }
+        q
+    }
+}
+#[global_allocator]
+static GLOBAL: CountingAlloc = CountingAlloc;
+
+/// tabmem <lens>: heap retained by CanonicalHuffmanTree::new, in 256-entry tables
+fn tabmem(args: &[&str]) -> String {
+    let mut code_lengths = parse_lens(args[0]);
+    let entry = std::mem::size_of::<bitstream_io::huffman::ReadHuffmanTree<LittleEndian, u16>>();
+    let before = CUR.load(std::sync::atomic::Ordering::Relaxed);
+    let r = CanonicalHuffmanTree::<LittleEndian, u16>::new(&mut code_lengths);
+    let after = CUR.load(std::sync::atomic::Ordering::Relaxed);
+    match r {
+        Ok(tree) => {
+            let kept = after.saturating_sub(before);
+            let out = format!("tables={} rem={}", kept / (256 * entry), kept % (256 * entry));
+            drop(tree);
+            out
+        }
+        Err(_) => "reject".into(),
+    }
+}
+
 fn main() {
     common::main_loop(|kind, args| match kind {
+        "tabmem" => tabmem(args),
         "huff" => huff(args),
         "huffsym" => huffsym(args),
         "hufftree" => hufftree(args),
